@@ -3372,6 +3372,8 @@ impl GraphEngine {
 
     fn add_edge_to_list(&self, key: String, edge_id: u64) -> Result<()> {
         let mut tensor = self.store.get(&key).unwrap_or_else(|_| TensorData::new());
+        #[cfg(neumann_verif)]
+        tensor_store::verif_hooks::yield_point("graph.adj.rmw");
         let mut edges = Self::extract_edge_ids(&tensor);
         if !edges.contains(&edge_id) {
             edges.push(edge_id);
@@ -6439,6 +6441,8 @@ impl GraphEngine {
 
     fn remove_edge_from_list(&self, key: &str, edge_id: u64) -> Result<()> {
         if let Ok(mut tensor) = self.store.get(key) {
+            #[cfg(neumann_verif)]
+            tensor_store::verif_hooks::yield_point("graph.adj.rmw");
             // Remove from new Pointers format
             if let Some(TensorValue::Pointers(ptrs)) = tensor.get("_edges") {
                 let id_str = edge_id.to_string();
